@@ -237,7 +237,7 @@ inline bool owns_part(Ctx& C)
   return (int)(Hash().s(C.cur_part).h % (uint64_t)C.nshards) == C.shard;
 }
 
-inline int run_main(int argc, char** argv, std::function<void(Ctx&)> init = nullptr)
+inline int run_main(int argc, char** argv, std::function<void(Ctx&)> init = nullptr, std::function<void(Ctx&)> fini = nullptr)
 {
   Ctx& C = ctx();
   for (int i = 1; i < argc; i++)
@@ -282,6 +282,7 @@ inline int run_main(int argc, char** argv, std::function<void(Ctx&)> init = null
   }
   if (!found) { fprintf(stderr, "no such part: %s\n", C.only_part.c_str()); return 2; }
   C.write_fragment();
+  if (fini) fini(C);
   uint64_t nv = 0;
   for (auto& kv : C.violCount) nv += kv.second;
   if (!C.only_case.empty()) { fprintf(stderr, "replay: %llu violation(s)\n", (unsigned long long)nv); return nv ? 1 : 0; }
